@@ -38,10 +38,10 @@ theorem walk_none (res : OpRes) : ∀ (ds : List Bytes), (c05Walk res ds []).1 =
       exact ih h
 
 /-- the channel has no death string registered (and the monitor agrees) -/
-def Rel0 (r : RunSt) : Prop := ∃ m, C05.Rel m r ∧ m.regs = []
+def Rel0 (r : RunSt) : Prop := ∃ m, C05.Rel m r ∧ m.regs = [] ∧ m.frames = []
 
 theorem rel0_deaths {r : RunSt} (h : Rel0 r) : r.st.deaths = [] := by
-  obtain ⟨m, hr, hm⟩ := h
+  obtain ⟨m, hr, hm, _⟩ := h
   rw [hr.deaths, hm]; rfl
 
 def plainOp : Op → Bool
@@ -52,7 +52,7 @@ def plainOp : Op → Bool
     raises no death-string exception -/
 theorem rel0_step (r : RunSt) (op : Op) (h : Rel0 r) (hop : plainOp op = true) :
     Rel0 (obsOp op r).2 ∧ deathOf (obsOp op r).1.res = none := by
-  obtain ⟨m, hr, hm⟩ := h
+  obtain ⟨m, hr, hm, hfr⟩ := h
   have hok : C05.opDeathOk op := by
     cases op <;> simp [plainOp] at hop <;> exact trivial
   obtain ⟨h1, h2⟩ := C05.c05_step m r op hr hok
@@ -63,12 +63,12 @@ theorem rel0_step (r : RunSt) (op : Op) (h : Rel0 r) (hop : plainOp op = true) :
       cases op <;> simp [plainOp] at hop <;> simp [c05, hread] <;> simp [isReadOp] at hread
     rw [hc, hm] at h1 h2
     obtain ⟨hd, hregs⟩ := walk_none _ _ h1
-    exact ⟨⟨_, h2, hregs⟩, hd⟩
+    exact ⟨⟨_, h2, hregs, hfr⟩, hd⟩
   | false =>
     have hc : c05 m op (obsOp op r).1 = ((deathOf (obsOp op r).1.res).isNone, m) := by
       cases op <;> simp [plainOp] at hop <;> simp [c05, hread] <;> simp [isReadOp] at hread
     rw [hc] at h1 h2
-    refine ⟨⟨m, h2, hm⟩, ?_⟩
+    refine ⟨⟨m, h2, hm, hfr⟩, ?_⟩
     cases hd : deathOf (obsOp op r).1.res with
     | none => rfl
     | some v => rw [hd] at h1; simp at h1
@@ -382,8 +382,8 @@ theorem rel_load {m : DeathMon} {r : RunSt} (sizes : List Nat) (extra : Bytes) (
   ⟨h.deaths, h.frames, h.next, h.inv⟩
 
 theorem rel0_load {r : RunSt} (sizes : List Nat) (extra : Bytes) (h : Rel0 r) : Rel0 (load sizes extra r) := by
-  obtain ⟨m, hr, hm⟩ := h
-  exact ⟨m, rel_load sizes extra hr, hm⟩
+  obtain ⟨m, hr, hm, hfr⟩ := h
+  exact ⟨m, rel_load sizes extra hr, hm, hfr⟩
 
 /-- `posix_fetch_return_code` on a channel in sync: the status, exactly, for every fragmentation -/
 theorem fetchRc_exact (c : Case) (sizes : List Nat) (st : Nat) (hst : st < 256) (r : RunSt)
